@@ -892,8 +892,18 @@ package nutsdb
 //@        allentries(db.SetIdx[""].M), allentries(db.SetIdx[""].M[""]), allentries(db.ListIdx[""].Items), allelems(db.ListIdx[""].Items[""])
 //@   safety[C20] panics
 //@ func DB.buildBPTreeRootIdxes
-//@   assumed sparse mode: loads the root index records of the sealed segments
-//@   modifies db.BPTreeRootIdxes
+//@   requires db != nil && len(dataFileIds) > 0 && (forall k int :: 0 <= k && k < len(db.BPTreeRootIdxes) ==> db.BPTreeRootIdxes[k] != nil)
+//@   ensures[C02] forall k int :: 0 <= k && k < len(db.BPTreeRootIdxes) ==> db.BPTreeRootIdxes[k] != nil
+//@   modifies db.BPTreeRootIdxes, elems(db.BPTreeRootIdxes), db.committedTxIds
+//@   safety[C20] panics
+//@   loops 2
+//@   loop 1: modifies db.BPTreeRootIdxes, elems(db.BPTreeRootIdxes)
+//@   loop 1: invariant 0 <= i && db == old(db) && dataFileIds == old(dataFileIds) && dataFileIdsSize == len(dataFileIds) && (forall k int :: 0 <= k && k < len(db.BPTreeRootIdxes) ==> db.BPTreeRootIdxes[k] != nil) &&
+//@        (arr(db.BPTreeRootIdxes) == arr(old(db.BPTreeRootIdxes)) || sinceLoop(db.BPTreeRootIdxes))
+//@   loop 2: modifies db.BPTreeRootIdxes, elems(db.BPTreeRootIdxes)
+//@   loop 2: invariant 0 <= i && i < dataFileIdsSize - 1 && db == old(db) && dataFileIds == old(dataFileIds) && dataFileIdsSize == len(dataFileIds) && fd == pre(fd) && fd != nil &&
+//@        (forall k int :: 0 <= k && k < len(db.BPTreeRootIdxes) ==> db.BPTreeRootIdxes[k] != nil) &&
+//@        (arr(db.BPTreeRootIdxes) == arr(pre(db.BPTreeRootIdxes)) || sinceLoop(db.BPTreeRootIdxes))
 
 //@ func DB.buildHintIdx
 //@   requires applicable(db) && nodesOK(nil) && treesOK(db)
